@@ -4,6 +4,7 @@ import (
 	"go/ast"
 	"go/token"
 	"go/types"
+	"strings"
 
 	"verif/engine/core"
 )
@@ -164,11 +165,13 @@ func endedChannels(c *core.Ctx) map[*types.Var]bool {
 			return true
 		})
 	}
+	// every call of the closer is in FSM.run and is either deferred or the FSM never goes back to an event loop after it
 	deferredInRun := func(g *core.Fn) bool {
 		sites := callSitesOf(p, g)
 		if len(sites) == 0 {
 			return false
 		}
+		cfgRun := p.CFG(run)
 		for _, s := range sites {
 			if s.f != run {
 				return false
@@ -179,7 +182,21 @@ func endedChannels(c *core.Ctx) map[*types.Var]bool {
 					isDefer = true
 				}
 			}
-			if !isDefer {
+			if isDefer {
+				continue
+			}
+			isThis := func(n ast.Node) bool { return core.NodeHas(n, func(x ast.Node) bool { return x == ast.Node(s.call) }) }
+			isLoop := func(n ast.Node) bool {
+				return core.NodeHas(n, func(x ast.Node) bool {
+					call, ok := x.(*ast.CallExpr)
+					if !ok {
+						return false
+					}
+					sel, ok := call.Fun.(*ast.SelectorExpr)
+					return ok && sel.Sel.Name == "run" && len(call.Args) == 0
+				})
+			}
+			if back := core.PathAvoidingFrom(cfgRun, isThis, func(ast.Node) bool { return false }, isLoop); len(back) > 0 {
 				return false
 			}
 		}
@@ -247,4 +264,132 @@ func deliveringSend(c *core.Ctx, f *core.Fn) func(ast.Node) bool {
 		}
 		return !inSel[nd] || okSel[nd]
 	}
+}
+
+// endedSignalBeforeLocks: once FSM.run has left the last event loop (a state's run() returned the final state), nobody
+// receives on the event channel any more; senders are released by the ended-signal.  A sender may hold a lock (the
+// collision check sends Cease with peer.fsmsMu held).  Rule: on every path of FSM.run from an event loop's return to
+// a `return`, the ended-signal is given BEFORE any call that acquires a lock a sender of events can hold — otherwise the
+// sender waits for the signal and the FSM waits for the sender's lock.
+func endedSignalBeforeLocks(c *core.Ctx, rule string) {
+	p := c.P
+	run := c.MustFunc(srv + ".(*FSM).run")
+	send := p.Func(srv + ".(*FSM).sendEvent")
+	if run == nil {
+		return
+	}
+	c.Analysed(run)
+	ended := endedChannels(c)
+	if len(ended) == 0 || send == nil {
+		c.Hold(rule, run.Name()+" gives the ended-signal before taking locks", run.Decl.Pos(), "no ended-signal in use (events are handed over by plain blocking sends)")
+		return
+	}
+	// closers of ended channels
+	isCloser := map[*core.Fn]bool{}
+	for _, f := range p.FuncsIn(srv) {
+		if f.Decl.Body == nil || isTestFn(p, f) {
+			continue
+		}
+		ast.Inspect(f.Decl.Body, func(n ast.Node) bool {
+			if call, ok := n.(*ast.CallExpr); ok && len(call.Args) == 1 {
+				if id, ok := call.Fun.(*ast.Ident); ok && id.Name == "close" && ended[core.FieldOf(f.Pkg, call.Args[0])] {
+					isCloser[f] = true
+				}
+			}
+			return true
+		})
+	}
+	// locks the senders may hold: lock classes held at (or on entry to) the call sites of sendEvent, transitively one level
+	lp := core.BuildLockProg(p, func(f *core.Fn) bool { return strings.HasSuffix(f.Pkg.PkgPath, srv) })
+	heldBySenders := map[string]bool{}
+	var collect func(g *core.Fn, depth int)
+	seen := map[*core.Fn]bool{}
+	collect = func(g *core.Fn, depth int) {
+		if seen[g] || depth > 4 {
+			return
+		}
+		seen[g] = true
+		for _, cs := range callSitesOf(p, g) {
+			if ls := lp.Sets[cs.f]; ls != nil {
+				for h := range ls.MayAt(cs.call) {
+					if hc := lp.KeyClass[cs.f][h]; hc != nil {
+						heldBySenders[core.ClassKey2(hc)] = true
+					}
+				}
+			}
+			collect(cs.f, depth+1)
+		}
+	}
+	collect(send, 0)
+	acquires := func(g *core.Fn) string {
+		for _, h := range p.ReachableFns(g) {
+			for class := range lp.Direct[h] {
+				if heldBySenders[class] {
+					return class
+				}
+			}
+		}
+		return ""
+	}
+	g := p.CFG(run)
+	isLoopRet := func(n ast.Node) bool {
+		return core.NodeHas(n, func(x ast.Node) bool {
+			call, ok := x.(*ast.CallExpr)
+			if !ok {
+				return false
+			}
+			sel, ok := call.Fun.(*ast.SelectorExpr)
+			return ok && sel.Sel.Name == "run" && len(call.Args) == 0
+		})
+	}
+	isSignal := func(n ast.Node) bool {
+		if _, isDefer := n.(*ast.DeferStmt); isDefer {
+			return false
+		}
+		return core.NodeHas(n, func(x ast.Node) bool {
+			call, ok := x.(*ast.CallExpr)
+			return ok && isCloser[p.FnOf(core.Callee(run.Pkg, call))]
+		})
+	}
+	why := ""
+	isLocking := func(n ast.Node) bool {
+		if _, isDefer := n.(*ast.DeferStmt); isDefer {
+			return false
+		}
+		return core.NodeHas(n, func(x ast.Node) bool {
+			call, ok := x.(*ast.CallExpr)
+			if !ok {
+				return false
+			}
+			callee := p.FnOf(core.Callee(run.Pkg, call))
+			if callee == nil || isCloser[callee] {
+				return false
+			}
+			// going back into an event loop is not "after the last loop"
+			if sel, ok := call.Fun.(*ast.SelectorExpr); ok && sel.Sel.Name == "run" && len(call.Args) == 0 {
+				return false
+			}
+			if cl := acquires(callee); cl != "" {
+				why = callee.Name() + " takes " + short(cl)
+				return true
+			}
+			return false
+		})
+	}
+	// only paths that really end the function matter: a locking call that is followed by another event loop is fine
+	var bad []ast.Node
+	for _, h := range core.PathAvoidingFrom(g, isLoopRet, isSignal, isLocking) {
+		// does the function end after h without another event loop?
+		isThis := func(n ast.Node) bool { return n == h }
+		isRet := func(n ast.Node) bool { _, ok := n.(*ast.ReturnStmt); return ok }
+		if len(core.PathAvoidingFrom(g, isThis, isLoopRet, isRet)) > 0 {
+			bad = append(bad, h)
+		}
+	}
+	pos := run.Decl.Pos()
+	if len(bad) > 0 {
+		pos = bad[0].Pos()
+	}
+	c.Check(len(bad) == 0, rule, run.Name()+" gives the ended-signal before taking a lock a sender of events can hold", pos,
+		"after its last event loop FSM.run calls something that takes a lock ("+why+") before the ended-signal is given: a goroutine that holds that lock and hands an event to this FSM (the collision check sending Cease) waits for the signal, the FSM waits for the lock — both block forever, and with them every operation on the peer")
 }
